@@ -323,6 +323,10 @@ def cummin_aggregate(x, y):
     if is_series_like(x) or is_dataframe_like(x):
         return x.where((x < y) | x.isnull(), y, axis=x.ndim - 1)
     else:  # scalar
+        if pd.isna(x) or pd.isna(y):
+            # missing running value (skipna=False): Python's min drops a NaN
+            # second argument
+            return x if pd.isna(x) else y
         return min(x, y)
 
 
@@ -330,6 +334,10 @@ def cummax_aggregate(x, y):
     if is_series_like(x) or is_dataframe_like(x):
         return x.where((x > y) | x.isnull(), y, axis=x.ndim - 1)
     else:  # scalar
+        if pd.isna(x) or pd.isna(y):
+            # missing running value (skipna=False): Python's max drops a NaN
+            # second argument
+            return x if pd.isna(x) else y
         return max(x, y)
 
 
